@@ -31,6 +31,7 @@ _results: dict[str, "queue.Queue[list[str]]"] = {}
 _todo: "queue.Queue[tuple[str, dict] | None]" = queue.Queue()
 _started = False
 _fix: int | None = None
+_hang_lines: dict[str, list[str]] = {}      # reproduced hangs: asked again (shrinking, replay) they are not run a third time
 _solo = threading.Lock()          # held (exclusively) while a history is retried alone
 _active = 0
 _active_cv = threading.Condition()
@@ -107,6 +108,7 @@ def _run_one(w: Worker, key: str, case: dict) -> tuple[Worker, list[str]]:
     if any(ln.startswith("@hang") for ln in r2["lines"]):
         with _lock:
             STATS["hangs"] += 1
+            _hang_lines[key] = r2["lines"]
         w.kill()
         return Worker(), r2["lines"]              # reproducible hang: a real observation
     if r is None:
@@ -164,6 +166,8 @@ def run_case(case: dict) -> list[str]:
     key = core.case_digest(case)
     with _lock:
         known = key in _results
+        if not known and key in _hang_lines:
+            return list(_hang_lines[key])
     if not known:
         prefetch([case])
     try:
@@ -215,15 +219,55 @@ def corpus_threads() -> list[dict]:
         cs.append(_case(kind, [["serve"], ["shutdown", "probe"], ["close", "serve"]], [[0], [50, 0], [50, 0]]))
         cs.append(_case(kind, [["serve"], ["close", "probe"], ["close", "serve"]], [[0], [50, 0], [51, 0]]))
         cs.append(_case(kind, [["serve"], ["shutdownT", "shutdownT", "shutdown", "probe"]], [[0], [30, 0, 0, 0]]))
+    return cs + corpus_nst()
+
+
+def corpus_nst() -> list[dict]:
+    """NetworkServerThread (servers/threads_helper.py): start() = thread + wait for "server ready", join() = shutdown +
+    Thread.join.  `ws` makes the next call of that thread land while serve_forever is parked in service_init."""
+    cs = []
+    for kind in ("tcp", "udp"):
+        # shutdown / close / join / a second start / a plain serve_forever landing in the start-up window of start()
+        for other in (["ws", "shutdown", "probe"], ["ws", "close", "probe", "echo"], ["ws", "tjoin", "probe"],
+                      ["ws", "tstart", "probe"], ["ws", "serve"], ["ws", "shutdownT", "shutdown", "tstart", "echo", "tjoin"],
+                      ["ws", "tjoinT", "tjoin"], ["ws", "close", "shutdown", "close", "tstart"]):
+            cs.append(_case(kind, [["tstart"], other], init_ms=150))
+        # the same without the rendez-vous (jitters across the whole start-up, incl. before the thread exists)
+        for d in (0, 1, 3, 8):
+            cs.append(_case(kind, [["tstart", "probe"], ["shutdown", "probe"]], [[0, 0], [d, 0]], init_ms=20))
+            cs.append(_case(kind, [["tstart", "probe"], ["tjoin", "tjoin"]], [[0, 0], [d, 1]], init_ms=20))
+        # start() on a closed server; start() twice (same thread, two threads); start() while a plain serve_forever runs
+        cs.append(_case(kind, [["close", "tstart", "probe", "tjoin"]]))
+        cs.append(_case(kind, [["tstart", "tstart", "echo", "tjoin", "probe"]]))
+        cs.append(_case(kind, [["tstart"], ["tstart"], ["tstart"]], [[0], [0], [1]], init_ms=5))
+        cs.append(_case(kind, [["serve"], ["ws", "tstart", "probe"], ["tstart", "tjoin"]], [[0], [0, 0, 0], [40, 0]], init_ms=30))
+        # start -> join -> start again (stopped, not closed: serves again), then close -> start
+        cs.append(_case(kind, [["tstart", "echo", "tjoin", "probe", "tstart", "echo", "tjoin", "close", "tstart"]]))
+        # shutdown in the set-up, then the same helper thread object is gone: a NEW start() must come up
+        cs.append(_case(kind, [["tstart", "tstart", "echo", "tjoin"], ["ws", "shutdown"]], init_ms=150))
     return cs
 
 
 THR_OPS = ["serve", "serve", "shutdown", "shutdown", "close", "probe", "echo", "shutdownT"]
 
 
+NST_OPS = ["tstart", "tstart", "tstart", "tjoin", "tjoin", "tjoinT", "shutdown", "shutdown", "close", "serve", "probe", "echo", "shutdownT"]
+
+
 def rand_case(rng) -> dict:
     kind = rng.choice(["tcp", "udp"])
     n = rng.choice([2, 2, 3, 3, 4])
+    if rng.random() < 0.35:
+        # NetworkServerThread histories; half of them with a rendez-vous in the start-up window
+        progs = [[rng.choice(NST_OPS) for _ in range(rng.randint(1, 4))] for _ in range(n)]
+        if not any("tstart" in p for p in progs):
+            progs[0].insert(0, "tstart")
+        if rng.random() < 0.5:
+            i = rng.choice([k for k in range(n) if k != 0] or [0])
+            progs[i].insert(0, "ws")
+        progs = [p[:5] for p in progs]
+        jit = [[rng.choice([0, 0, 0, 1, 1, 2, 3, 5, 8, 15, 30]) for _ in p] for p in progs]
+        return {"mode": "threads", "kind": kind, "progs": progs, "jit": jit, "init_ms": rng.choice([0, 5, 20, 50, 150])}
     progs = [[rng.choice(THR_OPS) for _ in range(rng.randint(1, 4))] for _ in range(n)]
     if not any("serve" in p for p in progs):
         progs[0].insert(0, "serve")
